@@ -1,9 +1,228 @@
-import PeptVerif.Model.ModDbGen
-/-! C15 property theorems (being filled in) -/
+import PeptVerif.Lemmas.FormulaRT
+/-!
+# C15 — chemical formulas: write → parse round trip, additivity, mass   (chem part; glycans: `Props/C15Glycan.lean`)
+
+Model: `PeptVerif/Model/Formula.lean` (`writeChem` = `write_chem_formula`, `parseChem` = `parse_chem_formula`,
+`chemMassStr` / `chemMassComp` = `chem_mass` on a string / a dict).  Helper lemmas: `Lemmas/FormulaRT.lean`,
+number texts: `Lemmas/NumText.lean`.
+
+Domain (definitions in `Lemmas/FormulaRT.lean`, all decidable except the float clause of `NumWF`):
+* `PlainKey k` : `k = Upper lower*` other than `D`, `T` (every element symbol of the table), or a particle `e`, `p`, `n`;
+* `IsoKey k`   : `k = D`, `T` or `digit+ letter+` (isotope-prefixed element) — the writer puts these in brackets;
+* `NumWF v`    : `v` is a Python int, or a float that is a finite decimal (≤ 399 fractional digits);
+* `DomTok (k, v)` : `(PlainKey k ∨ IsoKey k) ∧ NumWF v`;  `DomComp c` : pairwise distinct keys (a dict) of `DomTok`s;
+* `render ts` : what the writer emits (sep = '') for the entry list `ts` (every token carries its count);
+* `addAll d ts` : the dict `d` after `d[k] = d.get(k, 0) + v` for every `(k, v)` of `ts`, in order (dict addition).
+
+All statements are for every length / every input of the domain; counts may be negative, zero, fractional.
+-/
 namespace C15
 open ModDb Formula
 
-theorem split_plain_example : splitChem false [] (str% "[13C6]H12") = .ok [str% "[13C6]", str% "H12"] := by
+/-! example data (`exToks`, `exComp`, `exTable`, …) and their domain proofs: end of `Lemmas/FormulaRT.lean` -/
+
+/-! ### token level: the tokenizer and the component splitter -/
+
+/-- The condensed tokenizer (`finditer` of `([A-Z][a-z]*|e|p|n)(-?\d*\.?\d*)`) reads a run of written plain tokens back
+token by token: element boundaries (`Ce` vs `C`+`e`, `e` as electron, negative and decimal counts) are recovered
+exactly. -/
+theorem tokenizer_run (ps : List Tok) (h : ∀ t ∈ ps, PlainKey t.1 ∧ NumWF t.2) :
+    finditerCondensed 0 (render ps) = ps.map (fun t => (t.1, t.2.show)) :=
+  finditer_run (fun t ht => ⟨(h t ht).1, numOK_of_wf _ (h t ht).2⟩)
+
+example : finditerCondensed 0 (str% "C2Ce1e-1H-1.5") =
+    [(str% "C", str% "2"), (str% "Ce", str% "1"), (str% "e", str% "-1"), (str% "H", str% "-1.5")] := by decide +kernel
+
+/-- `_split_chem_formula` cuts the written text into the maximal runs of plain tokens and the single bracketed tokens. -/
+theorem splitter_render (ts : List Tok) (h : ∀ t ∈ ts, DomTok t) :
+    splitChem false [] (render ts) = .ok ((groups [] ts).map render) := by
+  have := splitChem_render (ps := []) (by simp) (fun t ht => (h t ht).wf)
+  simpa using this
+
+example : splitChem false [] (render exToks) =
+    .ok [str% "[13C6]", str% "C2H-1.5e-1C3", str% "[D2]", str% "Ce1"] := by decide +kernel
+
+/-! ### write → parse -/
+
+/-- **General round trip** for arbitrary token lists (repeated keys allowed, zero counts allowed): parsing the written
+tokens gives the left-to-right accumulation of the tokens into an empty dict. -/
+theorem parse_render (ts : List Tok) (h : ∀ t ∈ ts, DomTok t) :
+    parseChem (render ts) [] = .ok (addAll [] ts) :=
+  parseChem_render (fun t ht => (h t ht).wf)
+
+example : parseChem (render exToks) [] = .ok (addAll [] exToks) := parse_render exToks exToks_dom
+example : render exToks = str% "[13C6]C2H-1.5e-1C3[D2]Ce1" := by decide +kernel
+example : addAll [] exToks =
+    [(k13C, Num.ofInt 6), (kC, Num.ofInt 5), (kH, numNeg15), (kE, Num.ofInt (-1)), (kD, Num.ofInt 2),
+     (kCe, Num.ofInt 1)] := by decide +kernel
+
+/-- **C15 round trip, sep = ''**: writing a dict (plain or Hill order) and parsing it back returns the same dict, in
+the order written, with the zero-count entries dropped. -/
+theorem parse_write (E : List Elem) (c : Comp) (hill : Bool) (h : DomComp c) :
+    parseChem (writeChem E c [] hill) [] =
+      .ok ((if hill then sortBy (fun kv => hillIndex E kv.1) c else c).filter (fun kv => !kv.2.isZero)) :=
+  parseChem_write E hill h.wf
+
+example (E : List Elem) (hill : Bool) : parseChem (writeChem E exComp [] hill) [] =
+    .ok ((if hill then sortBy (fun kv => hillIndex E kv.1) exComp else exComp).filter (fun kv => !kv.2.isZero)) :=
+  parse_write E exComp hill exComp_dom
+example : writeChem [] exComp [] false = str% "H-1.5[13C6]C2e-1[D2]" := by decide +kernel
+
+/-- as a set of entries (order-free reading): the result has exactly the non-zero entries of the dict -/
+theorem parse_write_perm (E : List Elem) (c : Comp) (hill : Bool) (h : DomComp c) :
+    ∃ r, parseChem (writeChem E c [] hill) [] = .ok r ∧ r.Perm (c.filter (fun kv => !kv.2.isZero)) :=
+  ⟨_, parseChem_write E hill h.wf, (hillSort_perm E hill c).filter _⟩
+
+example (E : List Elem) : ∃ r, parseChem (writeChem E exComp [] true) [] = .ok r ∧
+    r.Perm (exComp.filter (fun kv => !kv.2.isZero)) := parse_write_perm E exComp true exComp_dom
+
+/-! ### additivity -/
+
+/-- **Parsing is additive**: the composition of the concatenation of two written formulas is the dict sum of the two
+compositions. -/
+theorem parse_append (ts₁ ts₂ : List Tok) (h₁ : ∀ t ∈ ts₁, DomTok t) (h₂ : ∀ t ∈ ts₂, DomTok t) :
+    ∃ c₁ c₂, parseChem (render ts₁) [] = .ok c₁ ∧ parseChem (render ts₂) [] = .ok c₂ ∧
+      parseChem (render ts₁ ++ render ts₂) [] = .ok (addAll c₁ c₂) := by
+  refine ⟨_, _, parse_render ts₁ h₁, parse_render ts₂ h₂, ?_⟩
+  have h : ∀ t ∈ ts₁ ++ ts₂, DomTok t := by
+    intro t ht
+    rcases List.mem_append.1 ht with ht | ht
+    · exact h₁ t ht
+    · exact h₂ t ht
+  rw [← render_append, parse_render _ h, addAll_append, addAll_addAll_nil]
+
+example : ∃ c₁ c₂, parseChem (render exToks) [] = .ok c₁ ∧ parseChem (render exComp) [] = .ok c₂ ∧
+    parseChem (render exToks ++ render exComp) [] = .ok (addAll c₁ c₂) :=
+  parse_append exToks exComp exToks_dom exComp_dom.2
+
+/-- additivity for the writer's outputs -/
+theorem parse_write_append (E : List Elem) (c₁ c₂ : Comp) (hill₁ hill₂ : Bool) (h₁ : DomComp c₁) (h₂ : DomComp c₂) :
+    parseChem (writeChem E c₁ [] hill₁ ++ writeChem E c₂ [] hill₂) [] =
+      .ok (addAll (dropZeros (hillSort E hill₁ c₁)) (dropZeros (hillSort E hill₂ c₂))) := by
+  have w₁ := (h₁.wf.perm (hillSort_perm E hill₁ c₁)).dropZeros
+  have w₂ := (h₂.wf.perm (hillSort_perm E hill₂ c₂)).dropZeros
+  have hw : ∀ t ∈ dropZeros (hillSort E hill₁ c₁) ++ dropZeros (hillSort E hill₂ c₂), WFTok t := by
+    intro t ht
+    rcases List.mem_append.1 ht with ht | ht
+    · exact w₁.2 t ht
+    · exact w₂.2 t ht
+  rw [writeChem_nosep E c₁ hill₁ (fun kv hkv => wfTok_key_ne (h₁.wf.2 kv hkv)),
+    writeChem_nosep E c₂ hill₂ (fun kv hkv => wfTok_key_ne (h₂.wf.2 kv hkv)), ← render_append,
+    parseChem_render hw, addAll_append, addAll_distinct w₁.1 (by simp [keys])]
+  rfl
+
+example (E : List Elem) : parseChem (writeChem E exComp [] false ++ writeChem E exComp [] true) [] =
+    .ok (addAll (dropZeros (hillSort E false exComp)) (dropZeros (hillSort E true exComp))) :=
+  parse_write_append E exComp exComp false true exComp_dom exComp_dom
+
+/-- dict addition is associative (so "the sum of the compositions" does not depend on bracketing) -/
+theorem addAll_associative (a b c : Comp) : addAll a (addAll b c) = addAll (addAll a b) c :=
+  addAll_assoc a b c
+
+example : addAll exComp (addAll exToks exComp) = addAll (addAll exComp exToks) exComp :=
+  addAll_associative exComp exToks exComp
+
+/-- **The count at a key**: the parse result has key `k` iff some written token has exactly the key `k`, and the count
+is the sum of the counts of exactly those tokens (repeated elements accumulate; nothing else contributes). -/
+theorem count_at (ts : List Tok) (h : ∀ t ∈ ts, DomTok t) :
+    ∃ c, parseChem (render ts) [] = .ok c ∧
+      ∀ k, c.get? k = if ts.any (fun t => t.1 == k) then some (sumAt k ts Num.zero) else none :=
+  ⟨_, parse_render ts h, get?_addAll_nil ts⟩
+
+example : (addAll [] exToks).get? kC = some (Num.ofInt 5) := by decide +kernel
+
+/-- **Repeated elements accumulate**: `k v₁ k v₂` parses to `k ↦ v₁ + v₂`. -/
+theorem repeat_accumulates (k : Str) (v₁ v₂ : Num) (h₁ : DomTok (k, v₁)) (h₂ : DomTok (k, v₂)) :
+    parseChem (render [(k, v₁), (k, v₂)]) [] = .ok [(k, Num.add v₁ v₂)] := by
+  rw [parse_render _ (by intro t ht; simp at ht; rcases ht with rfl | rfl <;> assumption)]
+  simp [addAll, addTo, Num.zero_add]
+
+example : parseChem (str% "C2C-3") [] = .ok [(kC, Num.ofInt (-1))] := by decide +kernel
+example : parseChem (render [(kC, Num.ofInt 2), (kC, Num.ofInt (-3))]) [] = .ok [(kC, Num.add (Num.ofInt 2) (Num.ofInt (-3)))] :=
+  repeat_accumulates kC _ _ ⟨.inl (by decide), numWF_int 2⟩ ⟨.inl (by decide), numWF_int (-3)⟩
+
+/-- **Isotopes in brackets stay distinct from their element** (and, generally, tokens with a different key never
+contribute): writing one more token `t` in front changes nothing at any key `k ≠ t.1` — in particular `[13C6]`
+adds nothing to `C`, although its text contains the letter `C`. -/
+theorem isotope_distinct (t : Tok) (ts : List Tok) (k : Str) (ht : DomTok t) (h : ∀ t ∈ ts, DomTok t)
+    (hk : t.1 ≠ k) :
+    ∃ c c', parseChem (render (t :: ts)) [] = .ok c' ∧ parseChem (render ts) [] = .ok c ∧ c'.get? k = c.get? k := by
+  have h' : ∀ x ∈ t :: ts, DomTok x := by
+    intro x hx
+    rcases List.mem_cons.1 hx with rfl | hx
+    · exact ht
+    · exact h x hx
+  refine ⟨_, _, parse_render _ h', parse_render _ h, ?_⟩
+  have hb : (t.1 == k) = false := by simpa using hk
+  rw [get?_addAll_nil, get?_addAll_nil]
+  simp only [List.any_cons, hb, Bool.false_or, sumAt, List.filter_cons, Bool.false_eq_true, if_false]
+
+example : ∃ c c', parseChem (render ((k13C, Num.ofInt 6) :: exToks)) [] = .ok c' ∧
+    parseChem (render exToks) [] = .ok c ∧ c'.get? kC = c.get? kC :=
+  isotope_distinct (k13C, Num.ofInt 6) exToks kC ⟨.inr (by decide), numWF_int 6⟩ exToks_dom (by decide)
+
+/-- the bracketed token itself is filed under its full key -/
+theorem isotope_own_key (k : Str) (v : Num) (hk : IsoKey k) (hv : NumWF v) :
+    parseChem ([91] ++ k ++ v.show ++ [93]) [] = .ok [(k, v)] := by
+  have h : DomTok (k, v) := ⟨.inr hk, hv⟩
+  have := parse_render [(k, v)] (by intro t ht; simp at ht; subst ht; exact h)
+  simpa [render, tokStr, isoKey_iso hk, addAll, addTo, Num.zero_add] using this
+
+example : parseChem (str% "[13C6]") [] = .ok [(k13C, Num.ofInt 6)] := by decide +kernel
+
+/-! ### mass -/
+
+/-- **Mass of the written string = mass of the dict** (`chem_mass(str)` vs `chem_mass(dict)`, monoisotopic or average),
+whenever `chem_mass` knows every key of the dict (zero-count entries included: on the dict side they are looked up
+too).  The hypothesis is exactly "`chem_mass` does not raise on any key". -/
+theorem mass_write (T : MassTable) (mono : Bool) (E : List Elem) (c : Comp) (hill : Bool) (h : DomComp c)
+    (hk : ∀ kv ∈ c, ∃ m, elemMass T mono kv.1 = .ok m) :
+    chemMassStr T mono (writeChem E c [] hill) [] = chemMassComp T mono c :=
+  chemMassStr_write E hill h.wf hk
+
+example (mono hill : Bool) :
+    chemMassStr exTable mono (writeChem exTable.elems exComp [] hill) [] = chemMassComp exTable mono exComp := by
+  apply mass_write _ _ _ _ _ exComp_dom
+  cases mono <;> exact known_of_all (by decide +kernel)
+
+/-! ### separated form (sep = ' ' or '|') -/
+
+/-- **C15 round trip, separated form**: for a dict with at least one non-zero entry. -/
+theorem parse_write_sep (E : List Elem) (c : Comp) (sep : Str) (hill : Bool) (hs : sep = [32] ∨ sep = [124])
+    (h : DomComp c) (hne : c.filter (fun kv => !kv.2.isZero) ≠ []) :
+    parseChem (writeChem E c sep hill) sep =
+      .ok ((if hill then sortBy (fun kv => hillIndex E kv.1) c else c).filter (fun kv => !kv.2.isZero)) :=
+  parseChem_write_sep E hill hs h.wf hne
+
+example (E : List Elem) (hill : Bool) : parseChem (writeChem E exComp [124] hill) [124] =
+    .ok ((if hill then sortBy (fun kv => hillIndex E kv.1) exComp else exComp).filter (fun kv => !kv.2.isZero)) :=
+  parse_write_sep E exComp [124] hill (.inr rfl) exComp_dom (by decide +kernel)
+example : writeChem [] exComp [32] false = str% "H -1.5 13C 6 C 2 e -1 D 2" := by decide +kernel
+
+/-- mass in the separated form -/
+theorem mass_write_sep (T : MassTable) (mono : Bool) (E : List Elem) (c : Comp) (sep : Str) (hill : Bool)
+    (hs : sep = [32] ∨ sep = [124]) (h : DomComp c) (hne : c.filter (fun kv => !kv.2.isZero) ≠ [])
+    (hk : ∀ kv ∈ c, ∃ m, elemMass T mono kv.1 = .ok m) :
+    chemMassStr T mono (writeChem E c sep hill) sep = chemMassComp T mono c := by
+  have hk' : ∀ kv ∈ dropZeros (hillSort E hill c), Known T mono kv.1 := by
+    intro kv hkv
+    exact hk kv ((hillSort_perm E hill c).mem_iff.1 (List.mem_filter.1 hkv).1)
+  simp only [chemMassStr, parseChem_write_sep E hill hs h.wf hne, chemMassComp_known hk', chemMassComp_known hk,
+    msum_dropZeros, msum_hillSort]
+
+example (mono hill : Bool) :
+    chemMassStr exTable mono (writeChem exTable.elems exComp [32] hill) [32] = chemMassComp exTable mono exComp := by
+  apply mass_write_sep _ _ _ _ _ _ (.inl rfl) exComp_dom (by decide +kernel)
+  cases mono <;> exact known_of_all (by decide +kernel)
+
+/-- **Why the separated form needs a non-zero entry** (the property's quantifier says "non-empty compositions for the
+separated forms"): an all-zero dict is written as the empty string, and `parse_chem_formula('', ' ')` is `{'': 1}`,
+not `{}`.  (With sep = '' the empty string parses to `{}` and `parse_write` holds without the restriction.) -/
+theorem sep_all_zero_counterexample (E : List Elem) :
+    writeChem E [(kC, Num.zero)] [32] false = [] ∧ parseChem [] [32] = .ok [([], Num.one)]
+      ∧ parseChem (writeChem E [(kC, Num.zero)] [] false) [] = .ok [] := by
+  refine ⟨by simp [writeChem, Num.isZero, Num.zero, Num.ofInt, intercalate], by decide, ?_⟩
+  simp [writeChem, Num.isZero, Num.zero, Num.ofInt]
   decide
 
 end C15
